@@ -273,6 +273,28 @@ Proof.
     unfold countb. apply filter_length_le.
 Qed.
 
+(** ... and every count in the interval is produced by some valid selection: the interval is exactly
+    the set of answers the k-D tree's tie-breaking can lead to *)
+Theorem lc_count_complete j x v : plc c = true -> 1 <= pk c -> nth_error ecs j = Some x -> n <> 0 ->
+  let r := nth j (o_lc out) (0, 0) in
+  fst r <= v <= snd r ->
+  exists sel, is_knn (pk c) (pc_dists x) sel /\ countb (lower st (pc_obj x)) sel = v.
+Proof.
+  intros Hlc Hk Hj Hn r Hv. destruct call_facts as (Hval & _ & _ & Hout).
+  assert (Hr : r = lc_of c st x).
+  { unfold r. rewrite Hout. cbn [o_lc]. rewrite Hlc. apply (@nth_map_error _ _ (lc_of c st) _ _ _ _ Hj). }
+  assert (Hlen : length (pc_dists x) = n) by (apply (valid_len _ _ _ x Hval), (nth_error_In _ _ Hj)).
+  rewrite Hr in Hv. unfold lc_of, kk, lc_range in Hv. fold n in Hv. cbn [fst snd] in Hv.
+  set (k := Nat.min (pk c) n) in *.
+  assert (Hk' : 1 <= k <= length (pc_dists x)) by (rewrite Hlen; unfold k; lia).
+  destruct (@lc_range_complete (lower st (pc_obj x)) k (pc_dists x) Hk'
+              (v - countb (lower st (pc_obj x)) (idx_below k (pc_dists x)))) as (sel & Hsel & Hcnt).
+  - lia.
+  - exists sel. split.
+    + apply (proj2 (is_knn_min _ _ _)). rewrite Hlen. exact Hsel.
+    + rewrite Hcnt. lia.
+Qed.
+
 (** entries after the call *)
 Lemma post_entry i : pcontent st' i = post_content c st ecs i.
 Proof. destruct call_facts as (_ & Hn & -> & _). apply (@core_content P meas c st ecs HP Hn). Qed.
